@@ -137,10 +137,38 @@ def gen_matrix(rng, N, alphabet=None, symmetric=True, tie_free=False):
     return D
 
 
-def gen_instance(rng, nmax=10, nu=0, m=0, tie_free=False, kinds=("feat", "mat", "lattice", "feat", "mat", "lattice", "tiny", "sparse", "literal", "gridcut", "gridcut")):
+def gen_instance(rng, nmax=10, nu=0, m=0, tie_free=False, kinds=("feat", "mat", "lattice", "feat", "mat", "lattice", "tiny", "sparse", "literal", "gridcut", "gridcut", "zeroarcs")):
     kind = rng.choice(kinds)
-    if kind == "gridcut" and tie_free:
+    if kind in ("gridcut", "zeroarcs") and tie_free:
         kind = "feat"
+    if kind == "zeroarcs":
+        # a symmetric matrix of distinct positive weights in which a few pairs of DIFFERENT samples are at distance exactly 0
+        # (thresholded / quantised dissimilarities): zero does not mean "interchangeable"
+        n = rng.randint(4, nmax)
+        N = n + nu + m
+        labels = gen_labels(rng, n)
+        vals = rng.sample(range(1, 10 * N * N), N * (N - 1) // 2)
+        D = [[0.0] * N for _ in range(N)]
+        for a in range(N):
+            for b in range(a + 1, N):
+                D[a][b] = D[b][a] = float(vals.pop())
+        order = list(range(N)); rng.shuffle(order)
+        for t in range(rng.randint(1, max(1, N // 3))):
+            a, b = order[2 * t], order[2 * t + 1]
+            D[a][b] = D[b][a] = 0.0
+        return Instance("zeroarcs", None, labels, D, nu, m, None)
+    if kind == "nondiss":
+        # a "distance" that is not a dissimilarity (gaussian: d(x, x) = 1 is its LARGEST value); the scan rule of C03 is about
+        # whatever function the model was given. Queries include exact copies of training rows.
+        n = rng.randint(3, nmax)
+        labels = gen_labels(rng, n)
+        dim = rng.randint(1, 3)
+        X = [[rng.uniform(-2, 2) for _ in range(dim)] for _ in range(n + nu + m)]
+        for i in range(n + nu, n + nu + m):
+            if rng.random() < 0.6:
+                X[i] = list(X[rng.randrange(n)])
+        D = metric_matrix("gaussian", X)
+        return Instance("nondiss", X, labels, D, nu, m, "gaussian")
     if kind == "gridcut":
         # partially filled integer grid, classes split by diagonal lines (zero-based labels): many equal arc weights AND
         # class-structured labels, so some training samples are conquered by another class's tree and conquer others in turn
@@ -180,6 +208,8 @@ def gen_instance(rng, nmax=10, nu=0, m=0, tie_free=False, kinds=("feat", "mat", 
             X = [[v / sum(r) for v in r] for r in X]
         D = metric_matrix(metric, X)
         if not any(v != v for r in D for v in r):
+            if rng.random() < 0.5:
+                return Instance("asym-matrix", None, labels, D, nu, m, None)     # the same directed weights as a pre-computed matrix
             return Instance("asym", X, labels, D, nu, m, metric)
         kind = "feat"
     if kind == "sparse":
